@@ -50,7 +50,21 @@ def gen_bound_script(rng):
         L.append('W %s 5 - %d %d' % ((seed).to_bytes(4, 'big').hex(), ln, seed))
     for _ in range(rng.randrange(0, 3)):
         w(rng.choice([5, 100, 300]))
-    mode = rng.choice(['failsync', 'inflight', 'both', 'slowappend', 'slowappend', 'restore'])
+    mode = rng.choice(['failsync', 'inflight', 'both', 'slowappend', 'slowappend', 'restore', 'cancelled'])
+    if mode == 'cancelled':
+        # an append whose caller was dropped is still running (held back by a failpoint delay) while a later write is
+        # acknowledged: when the bytes of the dropped append land nobody reports them -- the background sync has to wait
+        # for them (findings F34 / F35, repaired)
+        seed += 1
+        L.append('fail append .blob 0 delay:%d' % rng.choice([250, 400]))
+        L.append('cancel 2 W %s 5 - 100000 %d' % ((seed).to_bytes(4, 'big').hex(), seed))
+        w(rng.choice([5, lim // 2, lim * 2]))
+        L.append('sleep 700')
+        L.append('clearfail')
+        L.append('quiesce')
+        L.append('#BOUND')
+        L.append('truedirty')
+        L.append('dirty')
     if mode == 'restore':
         # deletion records pile up un-synced in the last CLOSED blob (they wait for the deferred index dump), then that
         # blob is made the active blob again: its un-synced bytes are the active blob's now (finding F30, repaired)
@@ -127,6 +141,28 @@ def gen_bound_script(rng):
     return '\n'.join(L) + '\n'
 
 
+def gen_fullblob_script(rng):
+    """The active blob is full and cannot be switched (the file of the next blob cannot be created, again and again):
+    every write asks for the switch in vain -- and must still ask for the sync when the un-synced bytes exceed the limit."""
+    lim = rng.choice([1000, 4096])
+    L = ['cfg K=4 dup=1 group=2 bloom=none init=eager runtime=%s dirty=%d maxrec=3 nomodel=1' % (rng.choice(['mt', 'ct']), lim), 'trace on', 'open']
+    seed = 0
+    def w(ln):
+        nonlocal seed
+        seed += 1
+        L.append('W %s 5 - %d %d' % ((seed).to_bytes(4, 'big').hex(), ln, seed))
+    for _ in range(3):
+        w(5)
+    L.append('sleep 250')
+    for i in range(10):
+        L.append('fail create .blob %d %s' % (i, rng.choice(['ENOSPC', 'EIO'])))
+    for _ in range(rng.randrange(4, 8)):
+        w(rng.choice([lim // 2, lim, lim + 100]))
+        L.append('quiesce')
+    L += ['#BOUND', 'truedirty', 'dirty', 'clearfail', 'quiesce', 'fsync', 'close']
+    return '\n'.join(L) + '\n'
+
+
 def gen_closing_script(rng):
     """A client writes WHILE the active blob is being closed (the close's sync is held back by a failpoint delay, every
     later sync fails so that no index dump can repair anything): once try_close_active_blob has returned Ok, the closed
@@ -157,7 +193,7 @@ def gen_closing_script(rng):
 def gen(tier, rng):
     n = 200 if tier == 'quick' else 4000
     return [('sync%05d' % i, gen_script(rng)) for i in range(n)] + [('bound%05d' % i, gen_bound_script(rng)) for i in range(n // 5)] + \
-           [('closing%05d' % i, gen_closing_script(rng)) for i in range(n // 8)]
+           [('closing%05d' % i, gen_closing_script(rng)) for i in range(n // 8)] + [('fullblob%05d' % i, gen_fullblob_script(rng)) for i in range(n // 10)]
 
 
 def norm_trace(tokens, mask_index_len=True):
